@@ -3,7 +3,10 @@ Engine S with path enumeration: the complete decision tree of CubicRoots::find_r
 CubicRoots::improve unrolled to three Newton steps are regenerated from /repo on every run; Coq proves, branch by branch and
 for all real coefficients, that the returned values are exactly the roots (Cardano, Viete, exact degenerate forms) and that
 the refinement never increases the residual.  The real code (double) is run on a corpus and a seeded sweep and judged by an
-independent statement of the property evaluated in exact rational arithmetic (failing-input search, always on)."""
+independent statement of the property evaluated in exact rational arithmetic (failing-input search, always on).
+Third round: residual bounds in the seven threshold leaves (|p|, |q|, discriminant below 100*DBL_MIN); hand-written generic model of the complete
+Newton loop of improve (coq/C10Improve.v) proved for every fuel and compared bit for bit (Coq primitive floats) with the real improve<double>;
+scale corpus (roots 1e-100 .. 1e+100): find_roots is not scale invariant (known finding, proposed patch fix_rescale.diff)."""
 import math, os, random, re, struct, threading
 from fractions import Fraction as Fr
 from vlib import guarded_main
@@ -337,7 +340,8 @@ def main2(c, exe, jdone):
     c.coverage["rule"] = ("fixed corpus (p=0, q=0, multiple roots, shifted, coefficients scaled by 1e+-100) + seeded sweep: generic, three separated "
                           "roots, one real root + complex pair, scaled, nearly special depressed forms; judged in exact rational arithmetic: count in {1,3}, "
                           "presented roots have relative residual <= 1e-3, count agrees with the sign of the exact discriminant when it is unambiguous, "
-                          "refinement never increases the residual")
+                          "refinement never increases the residual; scale corpus: roots (1,2,-3)s, (1,2,4)s, one real root for s = 1e-100 .. 1e+100 (scale finding); "
+                          "improve: model on primitive floats vs real improve<double> bit for bit (near roots, arbitrary starts, near double roots, scaled 1e+-60, special values)")
 
     # ---- proofs over the regenerated trees (the p = 0 theorem is stated as refuted when finding F2 is observed)
     props = "Properties_C10_F2.v" if f2_seen else "Properties_C10.v"
@@ -391,7 +395,7 @@ def main2(c, exe, jdone):
     for r in failed:   # name the lemma that contains the failing line (vlib only knows the theorems of Properties files)
         r.failed = [(f, line, thm or lemma_at(os.path.join(c.work, "coq", f), line), msg) for (f, line, thm, msg) in r.failed]
     if failed:
-        nthm = 16
+        nthm = 15
         c.coverage["obligations"] = max(c.coverage["obligations"], nthm)
         if any(v[3] for v in c.violations) or c.known_hits:
             c.notes.append("proof obligations failed: %s; concrete failing inputs are reported" % [f[:3] for r in failed for f in r.failed])
